@@ -16,6 +16,7 @@ pub enum A {
     S(String),                   // string literal (names, flags)
     FL(Vec<f64>),                // list of f64
     RL(Vec<usize>),              // list of registers
+    SL(Vec<String>),             // list of strings
 }
 
 pub struct M {
@@ -42,6 +43,10 @@ fn arg_json(a: &A) -> String {
         A::RL(v) => format!(
             "{{\"t\":\"rl\",\"v\":[{}]}}",
             v.iter().map(|x| x.to_string()).collect::<Vec<_>>().join(",")
+        ),
+        A::SL(v) => format!(
+            "{{\"t\":\"sl\",\"v\":[{}]}}",
+            v.iter().map(|x| enc::jstr(x)).collect::<Vec<_>>().join(",")
         ),
     }
 }
@@ -110,6 +115,7 @@ impl M {
             A::S(s) => V::S(s.clone()),
             A::FL(v) => V::FL(v.clone()),
             A::RL(v) => V::TL(v.iter().map(|i| self.regs[*i]).collect()),
+            A::SL(v) => V::SL(v.clone()),
         }
     }
 
